@@ -590,10 +590,13 @@ class GibbsTempo(BaseAPIClass):
         max_step = self._parameters.n_steps
         propagators = self._system.get_unitary_propagators(
             - 1j * self._dt, 0, 0, 0)
+        # The backend propagates row vectors (its result is indexed
+        # [initial, final]), hence it needs the transposed propagator to
+        # return the Gibbs state in the orientation of exp(-H/T).
         self._backend_instance = TIBaseBackend(
                 dim,
                 epsrel,
-                propagators(1)[0],
+                propagators(1)[0].T,
                 coeffs,
                 operators,
                 max_step=max_step,
